@@ -751,6 +751,106 @@ func hostileRequest(r *rand.Rand, idM *m.Address) []byte {
 	return b
 }
 
+// ---------- (b2) hostile response / ack: a real attacker-side setup whose 2nd or 3rd message is replaced by a
+// correctly signed message with a hostile body
+
+func hostileStepBody(r *rand.Rand) []byte {
+	kx := core.RandBytes(r, []int{0, 1, 31, 32, 33, 64, 5000}[r.IntN(7)])
+	var v any
+	switch r.IntN(7) {
+	case 0:
+		v = map[string]any{"c": core.RandBytes(r, []int{0, 1, 16, 32, 4000}[r.IntN(5)]), "ua": core.RandBytes(r, r.IntN(200)), "kx": kx, "kxt": []string{"", "ECDH-X25519/BLAKE3", "X", strings.Repeat("k", 3000)}[r.IntN(4)]}
+	case 1:
+		v = map[string]any{"ack": true, "kx": kx, "kxt": []string{"", "ECDH-X25519/BLAKE3", "nope"}[r.IntN(3)]}
+	case 2:
+		v = map[string]any{"err": strings.Repeat("e", r.IntN(9000))}
+	case 3:
+		v = map[string]any{"c": 5, "ua": "x", "kx": []int{1, 2}, "kxt": 7, "ack": "yes", "err": []byte{1}}
+	case 4:
+		v = []any{1, 2, 3}
+	case 5:
+		v = map[string]any{"ack": true} // ack without key exchange material
+	default:
+		return core.RandBytes(r, r.IntN(300))
+	}
+	b, err := cbor.Marshal(v)
+	if err != nil || len(b) > 9900 {
+		return []byte{0xA0}
+	}
+	return b
+}
+
+func handshakeSteps(res *core.Result, r *rand.Rand, n int) {
+	idV, idM := env.NewIdentity(r, nil), env.NewIdentity(r, nil)
+	for i := 0; i < n; i++ {
+		victimIsB := r.IntN(2) == 0
+		step := 1 + r.IntN(2) // 1 = response, 2 = ack
+		body := hostileStepBody(r)
+		w := wire.New()
+		var a, b *wire.Router
+		attDir := wire.AtoB
+		if victimIsB {
+			a, b = wire.NewRouter(idM, config.Router{}), wire.NewRouter(idV, config.Router{})
+		} else {
+			a, b = wire.NewRouter(idV, config.Router{}), wire.NewRouter(idM, config.Router{})
+			attDir = wire.BtoA
+		}
+		builder := frame.NewFrameBuilder()
+		replaced := false
+		w.Plan = func(dir wire.Dir, idx int, msg []byte) [][]byte {
+			if dir != attDir || idx != step || len(msg) < 2+49 {
+				return [][]byte{msg}
+			}
+			orig := msg[2:]
+			var src, dst [16]byte
+			copy(src[:], orig[16:32])
+			copy(dst[:], orig[32:48])
+			f, err := builder.NewFrameV1(netip.AddrFrom16(src), netip.AddrFrom16(dst), frame.MessageType(orig[4]), nil, body, nil)
+			if err != nil {
+				return [][]byte{msg}
+			}
+			defer f.ReturnToPool()
+			d, _ := f.FrameDataWithMargins(0, 0)
+			copy(d[5:16], orig[5:16]) // keep the sender's sequence/timestamp fields
+			f.SetTTL(0)
+			_ = f.SignRaw(idM.PrivateKey)
+			f.SetTTL(orig[1])
+			d, _ = f.FrameDataWithMargins(0, 0)
+			out := make([]byte, 2+len(d))
+			binary.BigEndian.PutUint16(out, uint16(len(out)))
+			copy(out[2:], d)
+			replaced = true
+			return [][]byte{out}
+		}
+		ra, rb, ok := wire.Handshake(w, a, b, 10*time.Second)
+		if !ok {
+			res.Violate("setup-stalled", "link setup did not return 5s after the connection was closed (hostile handshake step)", map[string]any{"step": step, "body": fmt.Sprintf("%x", body[:min(len(body), 200)])})
+			return
+		}
+		vres, vr := rb, b
+		if !victimIsB {
+			vres, vr = ra, a
+		}
+		if (vres.Err != nil && errors.Is(vres.Err, mgr.ErrWorkerPanic)) || len(vr.PanicAlerts()) > 0 {
+			res.Violate(fmt.Sprintf("worker-panic:handshake:step%d", step), fmt.Sprintf("a correctly signed handshake message %d with a hostile body panicked the setup worker: %v %v", step, vres.Err, vr.PanicAlerts()),
+				map[string]any{"step": step, "victim_is_listener": victimIsB, "body": fmt.Sprintf("%x", body[:min(len(body), 600)]), "case_id": fmt.Sprintf("step%d", step)})
+			return
+		}
+		for _, l := range []peering.Link{ra.Link, rb.Link} {
+			if l != nil {
+				l.Close(nil)
+			}
+		}
+		w.A.Close()
+		w.B.Close()
+		res.Case(fmt.Sprintf("handshake-step|%d|%v|%d", step, victimIsB, i%8), replaced)
+		if replaced {
+			res.Count("handshake_hostile_steps", 1)
+		}
+		time.Sleep(3 * time.Millisecond) // same identities again: later signed timestamps
+	}
+}
+
 // ---------- (c)+(d) asynchronous part: real instance, real TCP link, real worker pools
 
 type rawFrame struct {
@@ -1108,7 +1208,8 @@ func run(c *core.Ctx) {
 		case w == 9:
 			handshakeFuzz(res, r, c.Q(1500, 40000))
 		case w == 10:
-			handshakeFuzz(res, r, c.Q(1500, 40000))
+			handshakeFuzz(res, r, c.Q(1000, 30000))
+			handshakeSteps(res, r, c.Q(400, 10000))
 		default:
 			postHandshakeGarbage(res, r, c.Q(60, 1500))
 		}
@@ -1120,5 +1221,6 @@ func run(c *core.Ctx) {
 	res.Assume("the synchronous part calls the same handler functions as the worker loops through the hooks VerifHandleFrame; the asynchronous part drives the real link reader and the real worker pools of a relay-only instance")
 	res.Assume("a double release is observed through the repository's own guard (it panics)")
 	res.Require(res.Counter("sync_frames") >= 1000, "too few synchronous frames")
+	res.Require(res.Counter("handshake_hostile_steps") >= 50, "too few hostile handshake responses/acks delivered")
 	res.Require(res.Counter("async_sentinel_pongs_answered") >= 10, "too few sentinel pongs answered by the real instance")
 }
